@@ -4,12 +4,21 @@ import struct
 
 PROP = "C20"
 CONSTS = ["RAM_BUNDLE_MAGIC"]
-THEOREMS = {"SmVerif.Props.C20": ["SmVerif.C20." + t for t in ("c20_parse_serialize", "c20_get_module", "c20_past_table", "c20_iter", "c20_recognise", "c20_parse_iff", "c20_total")]}
+THEOREMS = {"SmVerif.Props.C20": ["SmVerif.C20." + t for t in (
+    # well-formed bundles written by the model's `serialize` (modules in id order)
+    "c20_parse_serialize", "c20_get_module", "c20_past_table", "c20_iter",
+    # the same for any physical layout (`Layout img startup slots`: any order, gaps), and `serialize` is one
+    "c20_parse_layout", "c20_get_module_layout", "c20_past_table_layout", "c20_iter_layout", "c20_iter_layout_all",
+    "c20_serialize_layout", "fieldsFit_of_size", "serialize_bytes",
+    # every byte string
+    "c20_recognise", "c20_parse_iff", "c20_parse_refused", "c20_total", "c20_in_bounds")]}
 TRUSTED = BASE_TRUST + ["model: lean/SmVerif/Model/RamBundle.lean mirrors IndexedRamBundle::{parse,startup_code,get_module}, RamBundleModuleIter and is_ram_bundle_slice (ram_bundle.rs) on top of scroll 0.10's Pread bounds rules (BadOffset when offset >= len, TooBig when size > remaining), little-endian reads",
                         "memory safety itself is Rust's (safe code + scroll); the theorems are about the values returned"]
 ASSUMPTIONS = ["64-bit target: usize sums of 32-bit fields cannot overflow", "the iterator is observed on the ids below a cap (a corrupted module count can be 2^32)"]
 RULE = ("ram.wf: bundles written by the generator from an abstract description (0-6 modules, empty slots anywhere, non-empty startup code, 0/1-byte modules, non-UTF-8 bytes, modules in any physical order, gaps) - spec computed from the description, not from the bytes; "
-        "ram.parse: corruptions of such bundles: truncation at every length, counts/offsets/lengths pointing past the end or near 2^32, wrong magic, zero length with non-zero offset, random bytes. "
+        "small scope: every bundle of 0-2 slots over {empty, NUL-only, 00, 41} x startup {73, 7374} in every physical order, each also truncated at every length and with every header/table byte set to 00/01/80/ff; "
+        "ram.parse: corruptions of such bundles: truncation at every length (thorough; quick samples 12 lengths of images over 40 bytes), one 32-bit field replaced by a value past the end or near 2^31/2^32, "
+        "boundary values (offset/length/startup size/count placed exactly at, one below and one above the end of the buffer, where scroll's BadOffset-at-len rule bites), wrong magic, zero length with non-zero offset, random bytes. "
         "non-trivial = parse succeeds and at least one module or error is reported, or parse is refused; distinct = distinct case line")
 EXHAUSTIVE = {"quick": False, "thorough": False}
 MAGIC = 0xFB0BD1E5
@@ -55,15 +64,57 @@ def rand_bundle(rng):
     return startup, slots
 
 
+# the image `exShuffled` of lean/SmVerif/Props/C20.lean (physical order 3,0,2 with gaps): the Layout example
+EX_SHUFFLED = (struct.pack("<III", MAGIC, 4, 3) + struct.pack("<IIIIIIII", 8, 2, 0, 0, 11, 1, 5, 3)
+               + b"abc" + b"\xde\xad" + b"\xff\x00\x00" + b"x\x00" + b"\x63" + b"\x00")
+
+
+def small_scope():
+    """every bundle of 0..2 slots over a 4-value pool, two startup codes, every physical order;
+    each well-formed image, all its truncations, and every header/table byte overwritten"""
+    import itertools
+    out = []
+    pool = [None, b"", b"\x00", b"A"]
+    for startup in (b"s", b"st"):
+        for n in range(3):
+            for slots in itertools.product(pool, repeat=n):
+                slots = list(slots)
+                pres = [i for i, x in enumerate(slots) if x is not None]
+                for order in itertools.permutations(pres):
+                    body = bytearray(startup)
+                    entries = [(0, 0)] * n
+                    for i in order:
+                        entries[i] = (len(body), len(slots[i]) + 1)
+                        body += slots[i] + b"\0"
+                    img = struct.pack("<III", MAGIC, n, len(startup)) + b"".join(struct.pack("<II", o, l) for o, l in entries) + bytes(body)
+                    out.append("ram.wf %s %s %s" % (img.hex(), hx(startup), slots_str(slots)))
+                    ids = ",".join(str(i) for i in range(n + 2))
+                    for L in range(len(img)):
+                        out.append("ram.parse %s %s %d" % (img[:L].hex() or "-", ids, n + 2))
+                    for k in range(12 + 8 * n):
+                        for v in (0, 1, 0x80, 0xff):
+                            if img[k] != v:
+                                b = bytearray(img)
+                                b[k] = v
+                                out.append("ram.parse %s %s %d" % (bytes(b).hex(), ids, n + 2))
+    return out
+
+
 def corpus():
     b = build(b"abc", [b"x", None, b"", b"\xff\x00"])
-    return ["ram.wf %s %s %s" % (b.hex(), hx(b"abc"), slots_str([b"x", None, b"", b"\xff\x00"])),
+    return ["ram.wf %s %s %s" % (EX_SHUFFLED.hex(), hx(b"abc"), slots_str([b"x", None, b"", b"\xff\x00"])),
+            # the corrupted example of Props/C20.lean: cut inside module 3, slot 2's length = 2^32-1
+            "ram.parse %s 0,1,2,3,4 6" % (EX_SHUFFLED[:32] + b"\xff\xff\xff\xff" + EX_SHUFFLED[36:50]).hex(),
+            # outside the quantifier (empty startup code at the very end of the buffer is BadOffset): spec '='
+            "ram.parse %s 0,1 4" % (struct.pack("<III", MAGIC, 1, 0) + struct.pack("<II", 0, 0)).hex(),
+            "ram.wf %s %s %s" % (b.hex(), hx(b"abc"), slots_str([b"x", None, b"", b"\xff\x00"])),
             "ram.parse - 0,1 4", "ram.parse %s 0,1 4" % struct.pack("<III", MAGIC, 0, 0).hex(),
             "ram.parse %s 0,4294967295 4" % struct.pack("<III", MAGIC, 0xFFFFFFFF, 0xFFFFFFFF).hex()]
 
 
 def generate(tier, rng, hist):
-    out = []
+    out = small_scope()
+    hist["small_scope_cases"] = len(out)
     N = 1500 if tier == "quick" else 60000
     for _ in range(N):
         startup, slots = rand_bundle(rng)
@@ -79,6 +130,35 @@ def generate(tier, rng, hist):
             for L in lens:
                 out.append("ram.parse %s %s %d" % (img[:L].hex() or "-", ids, lim))
             bump(hist, "truncations")
+        elif r < 6:
+            # boundary values: the field is placed exactly at / one below / one above the end of the buffer
+            b = bytearray(img)
+            n = len(slots)
+            so = 12 + 8 * n
+            d = rng.choice([-2, -1, 0, 1, 2])
+            pres = [i for i, x in enumerate(slots) if x is not None]
+            k = rng.below(4)
+            if k == 0 or not pres:
+                if rng.chance(0.5) or n == 0:
+                    struct.pack_into("<I", b, 8, max(0, len(img) - so + d))          # startup size up to the end
+                    bump(hist, "boundary_ssize")
+                else:
+                    # count such that the startup offset lands at the end of the buffer (rounded to entries)
+                    struct.pack_into("<I", b, 4, max(0, (len(img) - 12) // 8 + d))
+                    bump(hist, "boundary_count")
+            else:
+                i = rng.choice(pres)
+                off, ln = struct.unpack_from("<II", b, 12 + 8 * i)
+                if k == 1:
+                    struct.pack_into("<I", b, 12 + 8 * i, max(0, len(img) - so - (ln - 1) + d))   # module ends at the end
+                    bump(hist, "boundary_offset")
+                elif k == 2:
+                    struct.pack_into("<I", b, 12 + 8 * i + 4, max(0, len(img) - so - off + 1 + d))  # length reaches the end
+                    bump(hist, "boundary_length")
+                else:
+                    struct.pack_into("<II", b, 12 + 8 * i, max(0, len(img) - so + d), 1)            # zero-size read at the end
+                    bump(hist, "boundary_zero_size_at_end")
+            out.append("ram.parse %s %s %d" % (bytes(b).hex(), ids, lim))
         elif r < 8:
             b = bytearray(img)
             # corrupt one 32-bit field
